@@ -37,6 +37,9 @@ func MustNewFilter(str string) (f *Filter) {
 	}
 	p.buf = p.buf[2 : len(p.buf)-1]
 	eq := precedentCorrect(p.readEq())
+	if p.nextNonSpace(); p.pos < len(p.buf) {
+		p.raise("parse error")
+	}
 	eq = reduceGroups(eq, nil)
 
 	return eq.Filter()
